@@ -19,7 +19,7 @@ from vf.lib import cobaenv                            # noqa: E402
 import coba                                           # noqa: E402
 cobaenv.register()
 import coba.context.cachers as cachers_mod            # noqa: E402
-from coba.context.cachers import ConcurrentCacher, DiskCacher    # noqa: E402
+from coba.context.cachers import ConcurrentCacher, DiskCacher, MemoryCacher    # noqa: E402
 from coba.exceptions import CobaException             # noqa: E402
 
 
@@ -491,8 +491,9 @@ class C19(Check):
                     if j == i: raise EXC('x')
                     yield l
                 if i >= len(lines): raise EXC('x')
-            for wrap in ('disk', 'concurrent'):
-                c = DiskCacher(d) if wrap == 'disk' else ConcurrentCacher(DiskCacher(d))
+            for wrap in ('disk', 'concurrent', 'memory', 'concurrent-memory'):
+                c = {'disk': lambda: DiskCacher(d), 'concurrent': lambda: ConcurrentCacher(DiskCacher(d)), 'memory': MemoryCacher,
+                     'concurrent-memory': lambda: ConcurrentCacher(MemoryCacher())}[wrap]()
                 try:
                     with c.get_set('key', getter) as f: list(f)
                     acc.violation(f'DiskCacher|failing getter did not raise|{wrap}', f'after {i} lines')
@@ -501,14 +502,14 @@ class C19(Check):
                 if 'key' in c:
                     try:
                         with c.get_set('key', None) as f: got = [l.rstrip('\n') for l in f]
-                        acc.violation(f'DiskCacher|partial entry served after failed getter|{wrap}' + ('' if EXC is GetterError else ' getter killed by ' + EXC.__name__), f'after {i} of {len(lines)} lines: {got}')
+                        acc.violation(f'{"MemoryCacher" if "memory" in wrap else "DiskCacher"}|partial entry served after failed getter|{wrap}' + ('' if EXC is GetterError else ' getter killed by ' + EXC.__name__), f'after {i} of {len(lines)} lines: {got}')
                     except Exception as e:     # noqa
                         acc.violation(f'DiskCacher|partial entry left after failed getter|{wrap}', f'{type(e).__name__}')
-                if wrap == 'concurrent' and any(v != 0 for v in c._locks.values()):
+                if wrap.startswith('concurrent') and any(v != 0 for v in c._locks.values()):
                     acc.violation('ConcurrentCacher|lock held after failing getter|disk', str({k[1]: v for k, v in c._locks.items()}))
                 with c.get_set('key', lambda: lines) as f: got = [l.rstrip('\n') for l in f]
                 if got != lines:
-                    acc.violation(f'DiskCacher|wrong value after failed getter|{wrap}', f'{got} != {lines}')
+                    acc.violation(f'{"MemoryCacher" if "memory" in wrap else "DiskCacher"}|wrong value after failed getter|{wrap}', f'{got} != {lines}')
                 c.rmv('key')
             acc.mark_nontrivial(); acc.states += 1; acc.transitions += 4; acc.traces += 1
             return
